@@ -338,7 +338,7 @@ Proof.
 Qed.
 
 Lemma all_flags_complete : forall f, In f all_flags.
-Proof. destruct f; simpl; auto 10. Qed.
+Proof. destruct f; simpl; auto 14. Qed.
 
 Lemma forall_envs_sound : forall P, forall_envs P = true ->
   forall E, exists F, agrees E F /\ P F = true.
@@ -518,37 +518,78 @@ Qed.
 (* ---- (5) chunk deletion --------------------------------------------------- *)
 
 Lemma valid_cell_agrees : forall E F, agrees E F -> valid_cell F = valid_cell (fl E).
-Proof. intros E F H. unfold valid_cell. rewrite !H. reflexivity. Qed.
+Proof. intros E F H. unfold valid_cell, one_framework. rewrite !H. reflexivity. Qed.
 
 Lemma rm_requested_agrees : forall E F, agrees E F -> rm_requested F = rm_requested (fl E).
-Proof. intros E F H. unfold rm_requested. rewrite !H. reflexivity. Qed.
+Proof. intros E F H. unfold rm_requested, np_in_use. rewrite !H. reflexivity. Qed.
+
+Lemma rm_req_agrees : forall E F t, agrees E F -> rm_req F t = rm_req (fl E) t.
+Proof. intros E F t H. unfold rm_req, np_in_use. rewrite !H. reflexivity. Qed.
+
+Lemma rm_req_train : forall F, rm_req F RmTrain = rm_requested F.
+Proof. intro F. unfold rm_req, rm_requested. apply andb_comm. Qed.
+
+Lemma rm_req_val : forall F, rm_req F RmVal = rm_requested F.
+Proof. intro F. unfold rm_req, rm_requested. apply andb_comm. Qed.
+
+Lemma in_all_rmt : forall t, In t all_rmt.
+Proof. destruct t; simpl; auto. Qed.
+
+(* round-2 widening of the grid: every round-1 cell is still a valid cell *)
+Lemma valid_cell_widened : forall F, valid_cell_r1 F = true -> valid_cell F = true.
+Proof.
+  intro F. unfold valid_cell_r1, valid_cell, one_framework.
+  destruct (F RankZero), (F UseExisting), (F FwLitdata), (F FwTorch), (F FwNpChunks); simpl; auto.
+Qed.
 
 Lemma sel_F15_agrees : forall E F, agrees E F -> sel_F15 F = sel_F15 (fl E).
 Proof. intros E F H. unfold sel_F15. rewrite !H. reflexivity. Qed.
+
+Theorem no_rm_unless_requested_t_lemma : forall t p, chunk_guard_t t p = true ->
+  forall E, rm_req (fl E) t = false ->
+  Forall (fun a => is_rm t a = false) (trace E p).
+Proof.
+  intros t p H E Hrq. unfold chunk_guard_t in H.
+  destruct (forall_envs_sound _ H E) as (F & Hag & HF).
+  rewrite (rm_req_agrees E F t Hag), Hrq in HF. simpl in HF.
+  destruct (run_sound _ F true E p Hag (fun X => False_ind _ (diff_true_false X)) HF) as [Hm _].
+  exact (mok_const_true (no_rm_mon_t t) (fun _ => eq_refl) (fun _ => eq_refl) _ Hm).
+Qed.
+
+Lemma chunk_guard_contract_t : forall p t, chunk_guard_contract p = true -> chunk_guard_t t p = true.
+Proof.
+  intros p t H. unfold chunk_guard_contract in H. rewrite forallb_forall in H. apply H, in_all_rmt.
+Qed.
+
+Theorem no_rm_unless_requested_any_lemma : forall p, chunk_guard_contract p = true ->
+  forall E t, rm_req (fl E) t = false -> Forall (fun a => is_rm t a = false) (trace E p).
+Proof.
+  intros p H E t. apply no_rm_unless_requested_t_lemma, chunk_guard_contract_t, H.
+Qed.
 
 Theorem no_rm_unless_requested_lemma : forall p, chunk_guard_contract p = true ->
   forall E, rm_requested (fl E) = false ->
   Forall (fun a => is_rm RmTrain a = false /\ is_rm RmVal a = false) (trace E p).
 Proof.
-  intros p H E Hrq. unfold chunk_guard_contract in H.
-  destruct (forall_envs_sound _ H E) as (F & Hag & HF).
-  rewrite (rm_requested_agrees E F Hag), Hrq in HF. simpl in HF.
-  destruct (run_sound _ F true E p Hag (fun X => False_ind _ (diff_true_false X)) HF) as [Hm _].
-  pose proof (mok_const_true no_rm_mon (fun _ => eq_refl) (fun _ => eq_refl) _ Hm) as Hall.
-  eapply Forall_impl; [|exact Hall]. intros a Ha. simpl in Ha. apply orb_false_elim in Ha. exact Ha.
+  intros p H E Hrq.
+  pose proof (no_rm_unless_requested_any_lemma p H E RmTrain) as H1.
+  pose proof (no_rm_unless_requested_any_lemma p H E RmVal) as H2.
+  rewrite rm_req_train in H1. rewrite rm_req_val in H2.
+  specialize (H1 Hrq). specialize (H2 Hrq).
+  rewrite Forall_forall in *. intros a Ha. split; auto.
 Qed.
 
 (* on every path that is not an explicit rejection — faults inside try bodies included *)
 Theorem rm_on_all_paths_lemma : forall excuse t p,
   (forall E F, agrees E F -> excuse F = excuse (fl E)) ->
   rm_all_paths excuse t p = true ->
-  forall E, valid_cell (fl E) = true -> rm_requested (fl E) = true -> excuse (fl E) = false ->
+  forall E, valid_cell (fl E) = true -> rm_req (fl E) t = true -> excuse (fl E) = false ->
   result E p <> ExnInvalid ->
   exists a, In a (trace E p) /\ is_rm t a = true.
 Proof.
   intros excuse t p Hex H E Hv Hrq Hnx Hres. unfold rm_all_paths in H.
   destruct (forall_envs_sound _ H E) as (F & Hag & HF).
-  rewrite (valid_cell_agrees E F Hag), (rm_requested_agrees E F Hag), (Hex E F Hag), Hv, Hrq, Hnx in HF.
+  rewrite (valid_cell_agrees E F Hag), (rm_req_agrees E F t Hag), (Hex E F Hag), Hv, Hrq, Hnx in HF.
   simpl in HF. apply andb_prop in HF as [HF Hxo]. apply andb_prop in HF as [Hok Hnrm].
   destruct (run_sound _ F true E p Hag (fun X => False_ind _ (diff_true_false X)) Hok) as [_ Ha].
   assert (Hfin : mfinal (rm_done_mon t) true (trace E p) = false).
@@ -610,9 +651,8 @@ Qed.
 
 (* a valid, non-rejected run in which a requested chunk deletion does not happen *)
 Definition chunks_left_behind (p : eff) (E : env) : Prop :=
-  valid_cell (fl E) = true /\ rm_requested (fl E) = true /\ result E p <> ExnInvalid /\
-  ~ ((exists a, In a (trace E p) /\ is_rm RmTrain a = true) /\
-     (exists a, In a (trace E p) /\ is_rm RmVal a = true)).
+  valid_cell (fl E) = true /\ result E p <> ExnInvalid /\
+  exists t, rm_req (fl E) t = true /\ ~ (exists a, In a (trace E p) /\ is_rm t a = true).
 
 Lemma rm_missing_cell_exists : forall p, is_some (first_rm_missing_cell p) = true ->
   exists E, chunks_left_behind p E.
@@ -620,15 +660,14 @@ Proof.
   intros p H. destruct (first_rm_missing_cell p) as [c|] eqn:Hc; [|discriminate].
   unfold first_rm_missing_cell in Hc. apply find_some in Hc as [_ Hc].
   apply andb_prop in Hc as [Hv Hm]. unfold rm_missing in Hm.
+  apply existsb_exists in Hm as (t & _ & Hm). unfold rm_missing_t in Hm.
   apply andb_prop in Hm as [Hm Hne]. apply andb_prop in Hm as [Hrq Hnr].
-  exists (cenv p c None). split; [|split; [|split]]; auto.
+  exists (cenv p c None). split; [|split]; auto.
   - intro Ho. rewrite Ho in Hnr. discriminate.
-  - intros [(a & Ha & Hra) (b & Hb & Hrb)].
-    assert (H1 : existsb (is_rm RmTrain) (trace (cenv p c None) p) = true)
+  - exists t. split; auto. intros (a & Ha & Hra).
+    assert (H1 : existsb (is_rm t) (trace (cenv p c None) p) = true)
       by (apply existsb_exists; eauto).
-    assert (H2 : existsb (is_rm RmVal) (trace (cenv p c None) p) = true)
-      by (apply existsb_exists; eauto).
-    rewrite H1, H2 in Hne. discriminate.
+    rewrite H1 in Hne. discriminate.
 Qed.
 
 (* ---- the frozen snapshot `reference` (finite facts, recomputed by the kernel) ---- *)
@@ -685,7 +724,7 @@ Proof. destruct b14, b15; vm_compute; auto. Qed.
 (* the complete leak table of the pinned tree, cell by cell (32 cells) *)
 Definition expected_leaks (c : cell) : list (file * bool) :=
   [(FInitial, true); (FTraining, true)] ++
-  (if c_np c then [(FChunkCfg, true)] else []) ++
+  (match c_fw c with KMem => [] | _ => if c_existing c then [] else [(FChunkCfg, true)] end) ++
   (if c_wandb c then []
    else [(FTraining, false)] ++ (if c_ckpt c then [(FCkpt, false)] else []) ++ [(FTraining, false)]).
 
@@ -693,13 +732,13 @@ Lemma reference_leak_table :
   map (leaks_of_cell (reference false true)) all_cells = map expected_leaks all_cells.
 Proof. vm_compute. reflexivity. Qed.
 
-Lemma all_cells_length : length all_cells = 32.
-Proof. reflexivity. Qed.
+Lemma all_cells_length : length all_cells = 384.
+Proof. vm_compute. reflexivity. Qed.
 
 (* ---- the statements of Props.v, in exactly the form stated there ------------- *)
 
 Lemma chunk_deletion_on_all_paths_lemma : forall t p, rm_all_paths no_excuse t p = true ->
-  forall E, valid_cell (fl E) = true -> rm_requested (fl E) = true ->
+  forall E, valid_cell (fl E) = true -> rm_req (fl E) t = true ->
   result E p <> ExnInvalid ->
   exists a, In a (trace E p) /\ is_rm t a = true.
 Proof.
@@ -708,7 +747,7 @@ Proof.
 Qed.
 
 Lemma chunk_deletion_on_all_paths_unless_F15_lemma : forall t p, rm_all_paths sel_F15 t p = true ->
-  forall E, valid_cell (fl E) = true -> rm_requested (fl E) = true -> sel_F15 (fl E) = false ->
+  forall E, valid_cell (fl E) = true -> rm_req (fl E) t = true -> sel_F15 (fl E) = false ->
   result E p <> ExnInvalid ->
   exists a, In a (trace E p) /\ is_rm t a = true.
 Proof. intros t p. apply (rm_on_all_paths_lemma sel_F15 t p sel_F15_agrees). Qed.
@@ -759,13 +798,80 @@ Lemma ref_completes_after_fix : forall b14 E, valid_cell (fl E) = true ->
 Proof. intro b. apply run_completes_sound_lemma. apply reference_completes_fixed15. Qed.
 
 Lemma ref_chunks_left_behind : forall b14,
-  exists E, valid_cell (fl E) = true /\ rm_requested (fl E) = true /\
-    result E (reference b14 false) <> ExnInvalid /\
-    ~ ((exists a, In a (trace E (reference b14 false)) /\ is_rm RmTrain a = true) /\
-       (exists a, In a (trace E (reference b14 false)) /\ is_rm RmVal a = true)).
+  exists E, valid_cell (fl E) = true /\ result E (reference b14 false) <> ExnInvalid /\
+    exists t, rm_req (fl E) t = true /\
+              ~ (exists a, In a (trace E (reference b14 false)) /\ is_rm t a = true).
 Proof. intro b. apply rm_missing_cell_exists. apply reference_rm_missing_cell. Qed.
 
 Lemma ref_leak_table :
-  length all_cells = 32 /\
+  length all_cells = 384 /\
   map (leaks_of_cell (reference false true)) all_cells = map expected_leaks all_cells.
 Proof. split. apply all_cells_length. apply reference_leak_table. Qed.
+
+(* ---- round 2: tracking-run id, final save under faults ------------------------ *)
+
+(* (3') with tracking on, every completed rank-0 run records the id of its tracking run *)
+Theorem run_id_recorded_lemma : forall p, run_id_contract p = true ->
+  forall E, fl E RankZero = true -> fl E UseWandb = true -> no_faults E -> result E p = Ok ->
+  exists a, In a (trace E p) /\ is_set_path run_id_path a = true.
+Proof.
+  intros p H E Hrz Hw Hnf Hres. unfold run_id_contract in H.
+  destruct (forall_envs_sound _ H E) as (F & Hag & HF).
+  rewrite <- !Hag, Hrz, Hw in HF. simpl in HF.
+  pose proof (ends_clean_sound _ F E p Hag Hnf HF Hres) as Hfin.
+  destruct (mfinal_false _ _ _ Hfin) as [[Hs _] | (p1 & k & p2 & Hpre & Hk & _ & _)]; [discriminate|].
+  exists k. split; auto. rewrite Hpre. apply in_or_app. right. left. reflexivity.
+Qed.
+
+Lemma is_set_path_is_set : forall n a, is_set_path n a = true -> is_set a = true.
+Proof. intros n a H. destruct a; simpl in *; auto; discriminate. Qed.
+
+Lemma write_not_set : forall f a, is_write_to f a = true -> is_set a = false.
+Proof. intros f a H. destruct a; simpl in *; auto; destruct f; discriminate. Qed.
+
+(* ... and the final training_config.yaml is written AFTER that id was recorded and after every
+   other mutation: the file holds the configuration actually used, run id included *)
+Theorem final_config_records_run_id_lemma : forall p,
+  final_config_contract p = true -> run_id_contract p = true ->
+  forall E, fl E RankZero = true -> fl E UseWandb = true -> no_faults E -> result E p = Ok ->
+  exists p1 a p2 b p3, trace E p = p1 ++ a :: p2 ++ b :: p3 /\
+    is_set_path run_id_path a = true /\ is_write_to FTraining b = true /\
+    Forall (fun c => is_set c = false) p3.
+Proof.
+  intros p Hf Hr E Hrz Hw Hnf Hres.
+  destruct (final_after_mutation_lemma p Hf E Hrz Hnf Hres) as (q1 & b & q3 & Htr & Hb & Hq3).
+  destruct (run_id_recorded_lemma p Hr E Hrz Hw Hnf Hres) as (a & Hin & Ha).
+  rewrite Htr in Hin. apply in_app_or in Hin as [Hin | Hin].
+  - apply in_split in Hin as (p1 & p2 & ->).
+    exists p1, a, p2, b, q3. repeat split; auto.
+    rewrite Htr, <- app_assoc. reflexivity.
+  - exfalso. pose proof (is_set_path_is_set _ _ Ha) as Hs.
+    destruct Hin as [<- | Hin].
+    + rewrite (write_not_set _ _ Hb) in Hs. discriminate.
+    + rewrite Forall_forall in Hq3. rewrite (Hq3 a Hin) in Hs. discriminate.
+Qed.
+
+(* (3'') the final save survives exceptions: whatever strikes inside a try body, a rank-0 run
+   that is not rejected ends with training_config.yaml written after the last mutation *)
+Theorem final_config_under_faults_lemma : forall p, final_config_contract_faults p = true ->
+  forall E, fl E RankZero = true -> result E p <> ExnInvalid ->
+  exists p1 a p2, trace E p = p1 ++ a :: p2 /\ is_write_to FTraining a = true /\
+                  Forall (fun b => is_set b = false) p2.
+Proof.
+  intros p H E Hrz Hres. unfold final_config_contract_faults in H.
+  destruct (forall_envs_sound _ H E) as (F & Hag & HF).
+  rewrite <- Hag, Hrz in HF. simpl in HF.
+  apply andb_prop in HF as [HF Hxo]. apply andb_prop in HF as [Hok Hnrm].
+  destruct (run_sound _ F true E p Hag (fun X => False_ind _ (diff_true_false X)) Hok) as [_ Ha].
+  assert (Hfin : mfinal final_mon true (trace E p) = false).
+  { destruct (result E p); simpl in Ha; try (eapply ale_le_false; eauto; fail); try congruence. }
+  destruct (mfinal_false _ _ _ Hfin) as [[Hs _] | (p1 & k & p2 & Hpre & Hk & _ & Hp2)]; [discriminate|].
+  exists p1, k, p2. auto.
+Qed.
+
+(* round-2 facts about the frozen snapshot *)
+Lemma reference_round2_contracts : forall b14,
+  run_id_contract (reference b14 true) = true /\
+  final_config_contract_faults (reference b14 true) = true.
+Proof. destruct b14; vm_compute; auto. Qed.
+
